@@ -52,6 +52,7 @@ type scriptedClient struct {
 	mu    sync.Mutex
 	calls []whCall
 	next  func() int
+	byURL func(u string) (int, bool) // optional: outcome chosen by target URL
 }
 
 func (c *scriptedClient) Call(headers map[string]string, method string, u string, body any) (*http.Response, error) {
@@ -63,6 +64,11 @@ func (c *scriptedClient) Call(headers map[string]string, method string, u string
 	c.mu.Lock()
 	c.calls = append(c.calls, whCall{URL: u, Method: method, Headers: hc, Body: string(b)})
 	o := c.next()
+	if c.byURL != nil {
+		if o2, ok := c.byURL(u); ok {
+			o = o2
+		}
+	}
 	c.mu.Unlock()
 	mk := func(code int) *http.Response {
 		return &http.Response{StatusCode: code, Body: io.NopCloser(strings.NewReader("resp"))}
